@@ -163,6 +163,43 @@ def run(ctx, prog):
         ctx.inst('C05.R1', 'rpc query', 'response pairs embedding and metadata from one engine read', ok,
                  'QueryResponse{found: true} at %s takes metadata from %s and embedding from %s — two engine reads; an overwrite between them is returned to the client as one document'
                  % (q.loc_of(bb), sorted(set(flow.short(c.callee) if c else '?' for c in mroots)), sorted(set(flow.short(c.callee) if c else '?' for c in vroots))))
+    # the bulk read: every QueryResponse the BulkQuery handler builds (whatever `found` is — it is a variable there) takes its embedding and its metadata from ONE engine
+    # read. "Engine read" = a call of a TieredEngine method whose result carries a vector or a metadata map; all such call sites found anywhere in the origins of the two
+    # fields must be one and the same. A second read for either component (hydrating embeddings separately, re-reading metadata after a filter) admits an overwrite in
+    # between, and the client gets the vector of one write with the metadata of another — the engine-side pairing of bulk_query_with_source (above) is then moot.
+    bq = server.handler(ctx, 'C05.R1', 'bulk_query', 'KyroDBServiceImpl::tenant_context')
+    obq = flow.Origin(bq, max_depth=40)
+
+    def engine_reads(tree):
+        out = []
+        for x in flow.walk(tree):
+            if x[0] == 'call' and len(x) > 3 and x[3].callee and 'tiered_engine::TieredEngine::' in x[3].callee and x[3].dest is not None:
+                ty = bq.locals[x[3].dest['l']]
+                if 'Vec<f32' in ty or 'HashMap<alloc::string::String, alloc::string::String' in ty:
+                    if not any(x[3] is y for y in out):
+                        out.append(x[3])
+        return out
+    n_bulk = 0
+    for i, blk in enumerate(bq.blocks):
+        if i not in bq.live_blocks():
+            continue
+        for s in blk['s']:
+            rv = s.get('rv')
+            if not (rv and rv['k'] == 'agg' and rv.get('ak') == 'adt' and rv.get('adt', '').endswith('proto::QueryResponse')):
+                continue
+            fl = rv['fields']
+            er = engine_reads(obq.of_operand(rv['ops'][fl.index('embedding')]))
+            mr = engine_reads(obq.of_operand(rv['ops'][fl.index('metadata')]))
+            if not er and not mr:
+                continue   # an answer without content (error / not-found literal)
+            both = er + [c for c in mr if not any(c is y for y in er)]
+            k = n_bulk
+            n_bulk += 1
+            ctx.inst('C05.R1', 'rpc bulk_query', 'response #%d pairs embedding and metadata from one engine read' % k, len(both) == 1,
+                     ('QueryResponse at %s takes its metadata from %s and its embedding from %s — %d engine reads; an overwrite between them is returned to the client as one document'
+                      % (bq.loc_of(i), sorted(set('%s (%s)' % (flow.short(c.callee), c.loc) for c in mr)), sorted(set('%s (%s)' % (flow.short(c.callee), c.loc) for c in er)), len(both)))
+                     if len(both) != 1 else 'both fields originate from %s at %s' % (flow.short(both[0].callee), both[0].loc))
+    ctx.floor('C05.R1', 'content-carrying QueryResponse sites in the BulkQuery RPC', n_bulk, 1, 'the per-document response of the loop')
     ctx.floor('C05.R1', '(vector, metadata) pair sites', n_pairs, 4, '2 in get_document_with_metadata, ≥1 in bulk_query_with_source, 1 in the Query RPC')
     # the single-acquisition fetches really take the store once
     for fn in ATOMIC_FETCH:
